@@ -4,8 +4,9 @@ TIER=${1:-quick}
 cd /verif
 for p in $(python3 -c "import json;print(' '.join(sorted(json.load(open('checks.json')).keys())))"); do
   s=$(date +%s)
-  out=$(./check $p --tier $TIER 2>&1)
+  out=$(timeout 7200 ./check $p --tier $TIER 2>&1)
   rc=$?
   echo "$p rc=$rc $(( $(date +%s) - s ))s :: $(echo "$out" | grep -v '^  ' | tail -1)"
-  echo "$out" | grep "VIOLATION\|MACHINERY\|INCONCLUSIVE\|UNCONFIRMED\|KNOWN-FINDING" | head -5
+  echo "$out" | grep "VIOLATION\|MACHINERY\|INCONCLUSIVE\|UNCONFIRMED\|KNOWN-FINDING\|TRUNCATED" | head -8
+  if [ "$TIER" = thorough ]; then mkdir -p out/evidence-thorough; cp evidence/$p.json out/evidence-thorough/$p.json; fi
 done
